@@ -506,7 +506,9 @@ fn det(tier: &str, seed: u64, outdir: &str) {
     let mut refs = vec![];
     crate::select("gram", GRAM_U, ndocs / 2, seed, &mut refs);
     crate::select("fix", crate::universe_size("fix", &fx), ndocs / 4, seed, &mut refs);
-    crate::select("imp", IMP_U, ndocs / 4, seed, &mut refs);
+    // import statements are small and the only place where a sort decides the output: take many, so
+    // that lists with equal or nearly equal keys (`b`, `B`) occur
+    crate::select("imp", IMP_U, ndocs * 6, seed, &mut refs);
     let mut docs: Vec<(String, Cfg)> = refs
         .iter()
         .filter_map(|c| crate::make_case(c, &fx))
